@@ -88,6 +88,7 @@ fn class_weights(mode: Prop, kind: Kind, mbuff_len: usize) -> Vec<(Class, u32)> 
             if kind == Kind::Fixed {
                 w.push((Class::SlotPlain, 5));
                 w.push((Class::ProbeSlotLen, 1));
+                w.push((Class::FixedBeyondEnd, 2));
             }
             if kind == Kind::Raw {
                 w.push((Class::ProbeR1Load, 2));
@@ -247,6 +248,11 @@ pub fn generate(rng: &mut Rng, mode: Prop) -> Scenario {
                 let idx = rng.below((p0len.min(200) - 8) as u64 + 1) as usize;
                 let ind = rng.chance(1, 2);
                 gen_probe_helper_then_pkt(rng, tag, idx, ind)
+            }
+            Class::FixedBeyondEnd => {
+                let (d, e) = *rng.pick(&offsets);
+                let beyond = *rng.pick(&[0usize, 0, 1, 7, 8, 64, 1000, 30000]);
+                gen_fixed_beyond_end(tag, d, e, beyond)
             }
             Class::LongAlu => gen_long_alu(rng, tag),
             Class::FailInCallee => gen_fail_in_callee(tag),
